@@ -379,8 +379,10 @@ def r_frame(cg, P, rep):
     cases = [
         [(1, 1, False), (4, 4, False), (8, 8, False)],
         [(3, 1, True), (17, 1, True), (16, 1, True), (15, 1, True)],
-        [(1, 1, False), (1, 64, False), (2, 2, False)],
-        [(24, 8, False), (1, 1, False), (16, 16, False), (5, 1, True), (32, 32, True)],
+        [(1, 1, False), (1, 64, False, 1), (2, 2, False)],            # char with _Alignas(64): variable alignment above the type's
+        [(24, 8, False), (1, 1, False), (16, 16, False), (5, 1, True), (32, 32, True, 1)],
+        [(1, 1, True), (16, 1, True)],                                # a 16-byte array after an odd-sized object
+        [(1, 1, True), (15, 1, True), (4, 32, False, 4)],
     ]
     for ci, locs in enumerate(cases):
         for params in ([], ['int', 'double', 's_ld'], ['long'] * 7 + ['s_l3']):
@@ -392,7 +394,7 @@ def r_frame(cg, P, rep):
             homes = []
             ok = True
             msg = ''
-            objs = [(v, sz, (16 if (arr and sz >= 16) else 1) * 1 if False else (max(16, al) if (arr and sz >= 16) else al)) for v, (sz, al, arr) in zip(box['extras'], locs)]
+            objs = [(v, sz, (16 if (arr and sz >= 16) else 1) * 1 if False else (max(16, al) if (arr and sz >= 16) else al)) for v, (sz, al, arr) in zip(box['extras'], [l[:3] for l in locs])]
             objs.append((box['ab'], 8, 8))
             for v, sz, al in objs:
                 off = v.fields.get('offset')
